@@ -1,44 +1,84 @@
-(* Copies: a copy that succeeds is again a conserved ledger over the same totals (for ANY vector);
-   when no two cells of the vector match each other (wf_vecb) the copy always succeeds and has exactly
-   the available cells, totals and getters of its original (copy_same_getters) - false otherwise
-   (Proofs/WorkerPR.v copy_mixed_vector_*_refuted); a deep copy is the initial ledger; operations on
-   one object of a world leave the other objects unchanged (world_independence). *)
+(* Copies (as of /repo cd7cd87 / b0287db): Resources.__copy__ copies the cells and the allocation lists,
+   so a copy IS its original (same available cells, totals, allocations, hence same getters) for ANY
+   vector; Worker.__copy__ also copies the batch registry and gives every pending profile its own
+   loading strategy, so a copy satisfies the same invariant and answers can_accomodate_strategy as its
+   original; a deep copy is the initial ledger; operations on one object of a world leave the other
+   objects unchanged (world_independence, now including `step`). *)
 From Coq Require Import ZArith Bool List Lia ZifyBool.
 Import ListNotations.
 From Verif Require Import Model.Val Model.Res Model.Worker Proofs.ResP Proofs.ResP2 Proofs.WorkerP Proofs.WorkerP2.
 Open Scope Z_scope.
 
-Lemma copy_recs_inv : forall l I c I', Inv_ledger I -> Dict_ok I -> copy_recs I c l = Ok I' ->
-  Inv_ledger I' /\ Dict_ok I' /\ r_total I' = r_total I.
+Lemma fold_vec_set_skip : forall l k q v, ~ In k (map fst l) ->
+  fold_left (fun v kq => vec_set (fst kq) (snd kq) v) l ((k, q) :: v) =
+  (k, q) :: fold_left (fun v kq => vec_set (fst kq) (snd kq) v) l v.
 Proof.
-  induction l as [|[k q] l IH]; intros I c I' HI HD H; cbn [copy_recs] in H.
-  - inversion H; subst. auto.
-  - destruct (r_allocate I k c q) as [I1 [u|e]] eqn:Ea; [|discriminate].
-    destruct (IH I1 c I' (inv_allocate _ _ _ _ _ _ HI Ea) (dict_allocate _ _ _ _ _ _ HD Ea) H) as (A & B & C).
-    split; [exact A|split; [exact B|]]. rewrite C. eapply total_allocate; eauto.
+  induction l as [|[k0 q0] l IH]; intros k q v Hn; cbn [fold_left fst snd]; [reflexivity|].
+  cbn [vec_set]. destruct (rkey_eqb k k0) eqn:E.
+  - apply rkey_eqb_eq in E. subst. exfalso. apply Hn. left. reflexivity.
+  - apply IH. intro X. apply Hn. right. exact X.
 Qed.
-Lemma copy_allocs_inv : forall a I I', Inv_ledger I -> Dict_ok I -> copy_allocs I a = Ok I' ->
-  Inv_ledger I' /\ Dict_ok I' /\ r_total I' = r_total I.
+Lemma fold_vec_set_same : forall av tot, map fst av = map fst tot -> NoDup (map fst av) ->
+  fold_left (fun v kq => vec_set (fst kq) (snd kq) v) av tot = av.
 Proof.
-  induction a as [|[c l] a IH]; intros I I' HI HD H; cbn [copy_allocs] in H.
-  - inversion H; subst. auto.
-  - destruct (copy_recs I c l) as [I1|e] eqn:Ec; [|discriminate].
-    destruct (copy_recs_inv _ _ _ _ HI HD Ec) as (A & B & C).
-    destruct (IH I1 I' A B H) as (A' & B' & C'). split; [exact A'|split; [exact B'|congruence]].
+  induction av as [|[k q] av IH]; intros [|[k' t] tot] K N; cbn [map fst] in K; try discriminate; [reflexivity|].
+  inversion K; subst k'. inversion N as [|x y N1 N2]; subst. cbn [fold_left fst snd vec_set]. rewrite rkey_eqb_refl.
+  rewrite fold_vec_set_skip by exact N1. f_equal. apply IH; assumption.
 Qed.
-(* the copy conserves: for every key predicate, available + allocated = the ORIGINAL's totals *)
-Theorem copy_conserves : forall R R', NoDup (map fst (r_total R)) -> r_copy R = Ok R' ->
+(* a copy of a ledger is that ledger, for ANY vector *)
+Theorem copy_same : forall R, Inv_ledger R -> Dict_ok R -> r_copy R = Ok R.
+Proof.
+  intros R [_ K _] [_ N]. unfold r_copy. rewrite (fold_vec_set_same _ _ K N). destruct R; reflexivity.
+Qed.
+Theorem copy_same_getters : forall R, Inv_ledger R -> Dict_ok R ->
+  exists R', r_copy R = Ok R' /\ r_avail R' = r_avail R /\ r_total R' = r_total R /\ r_allocs R' = r_allocs R /\
+             forall r, r_available R' r = r_available R r /\ r_total_q R' r = r_total_q R r /\
+                       r_allocated_q R' r = r_allocated_q R r.
+Proof. intros R HI HD. exists R. rewrite (copy_same R HI HD). repeat split; reflexivity. Qed.
+Theorem copy_conserves : forall R R', Inv_ledger R -> Dict_ok R -> r_copy R = Ok R' ->
   r_total R' = r_total R /\ forall P, sumP P (r_avail R') + allocs_sum P (r_allocs R') = sumP P (r_total R).
+Proof. intros R R' HI HD H. rewrite (copy_same R HI HD) in H. inversion H; subst. split; [reflexivity|apply (inv_cons _ HI)]. Qed.
+
+(* Worker.__copy__ *)
+Lemma renumber_keys : forall pend n, map fst (renumber_pend n pend) = map fst pend.
+Proof. induction pend as [|[p s] pend IH]; intro n; cbn [renumber_pend map fst]; [reflexivity|]. rewrite IH. reflexivity. Qed.
+Lemma renumber_find : forall pend n p, 
+  (zfind p (renumber_pend n pend) = None <-> zfind p pend = None) /\
+  (forall s', zfind p (renumber_pend n pend) = Some s' ->
+     exists s, zfind p pend = Some s /\ s_req s' = s_req s /\ s_runtime s' = s_runtime s /\ s_bsize s' = s_bsize s).
 Proof.
-  intros R R' Hnd H. unfold r_copy in H.
-  destruct (copy_allocs_inv _ _ _ (inv_new (r_total R)) (dict_new _ Hnd) H) as ([C _ _] & _ & T).
-  cbn [r_new r_total] in T. split; [exact T|]. intro P. rewrite C, T. reflexivity.
+  induction pend as [|[p0 s0] pend IH]; intros n p; cbn [renumber_pend zfind].
+  - split; [tauto|discriminate].
+  - destruct (p0 =? p); [split; [split; discriminate|intros s' E; inversion E; subst; exists s0; cbn; auto]|apply IH].
 Qed.
-(* Worker.__copy__ keeps the placed tasks and the profiles, forgets the batch registry *)
 Theorem w_copy_shape : forall w w', w_copy w = Ok w' ->
-  w_id w' = w_id w /\ w_placed w' = w_placed w /\ w_avail_prof w' = w_avail_prof w /\ w_pend_prof w' = w_pend_prof w /\
-  w_batches w' = [] /\ r_copy (w_res w) = Ok (w_res w').
-Proof. intros w w' H. unfold w_copy in H. destruct (r_copy (w_res w)) as [R|e]; inversion H; subst. cbn. repeat split; reflexivity. Qed.
+  w_id w' = w_id w /\ w_placed w' = w_placed w /\ w_batches w' = w_batches w /\ w_btask w' = w_btask w /\
+  w_avail_prof w' = w_avail_prof w /\ map fst (w_pend_prof w') = map fst (w_pend_prof w) /\
+  r_copy (w_res w) = Ok (w_res w').
+Proof.
+  intros w w' H. unfold w_copy in H. destruct (r_copy (w_res w)) as [R|e]; inversion H; subst. cbn.
+  rewrite renumber_keys. repeat split; reflexivity.
+Qed.
+(* a copy satisfies the invariant of its original: everything proved about reachable workers (who holds
+   what, removal, refusal, demand <= capacity) holds for copies and for what is done to them *)
+Theorem w_copy_winv : forall tbl w w', WInv tbl w -> w_copy w = Ok w' -> WInv tbl w'.
+Proof.
+  intros tbl w w' HI H. unfold w_copy in H. destruct (wi_res _ _ HI) as [HA HD]. rewrite (copy_same _ HA HD) in H.
+  inversion H; subst; clear H.
+  destruct HI as [Hres Hn Hndp Hndb Hbk Hnda Hndq Hdisj Hmem Hpb Hfresh Hinj Horph Hext Hexb Hexp].
+  constructor; cbn [w_res w_placed w_batches w_btask w_avail_prof w_pend_prof w_fresh]; auto.
+  - rewrite renumber_keys. exact Hndq.
+  - intros p X. apply (proj1 (renumber_find (w_pend_prof w) (w_fresh w) p)). auto.
+  - intros sid b E. apply Hfresh in E. lia.
+  - intros c Hc. specialize (Horph c Hc). destruct c as [t|b|p]; auto. destruct Horph as [X|X]; [left; exact X|right].
+    intro Y. apply (proj1 (renumber_find (w_pend_prof w) (w_fresh w) p)) in Y. contradiction.
+  - intros p s' [X|X]; [apply Hexp; left; exact X|].
+    destruct (proj2 (renumber_find (w_pend_prof w) (w_fresh w) p) s' X) as (s & E1 & E2 & _). rewrite E2. apply Hexp. right. exact E1.
+Qed.
+Theorem w_copy_fits : forall w w' s, Inv_ledger (w_res w) -> Dict_ok (w_res w) -> w_copy w = Ok w' -> w_fits s w' = w_fits s w.
+Proof.
+  intros w w' s HA HD H. unfold w_copy in H. rewrite (copy_same _ HA HD) in H. inversion H; subst. reflexivity.
+Qed.
 Theorem w_deepcopy_initial : forall id v ops, NoDup (map fst v) ->
   let w := w_deepcopy (w_run ops (w_new id v)) in
   w_res w = r_new v /\ w_placed w = [] /\ w_avail_prof w = [] /\ w_pend_prof w = [] /\ w_batches w = [].
@@ -47,9 +87,9 @@ Proof.
   unfold w, w_deepcopy, r_deepcopy. cbn. rewrite T. repeat split; reflexivity.
 Qed.
 
-(* Independence: in the world of objects, an operation on object i (other than a `step`, whose effect
-   on shared loading timers is explicit: timer_aliasing_refuted) leaves every other object unchanged,
-   and copying leaves every existing object unchanged. *)
+(* Independence: in the world of objects, an operation on object i leaves every other object unchanged
+   (including `step`: the loading timers are no longer shared, /repo b0287db), and copying leaves every
+   existing object unchanged. *)
 Lemma nth_error_set_nth_other : forall {A} (l : list A) i j a, i <> j -> nth_error (set_nth i a l) j = nth_error l j.
 Proof.
   intros A. induction l as [|x l IH]; intros i j a Hn; [destruct i; reflexivity|].
@@ -59,18 +99,16 @@ Lemma nth_error_app_old : forall {A} (l : list A) x j a, nth_error l j = Some a 
 Proof. intros A l x j a H. rewrite nth_error_app1; [exact H|]. apply nth_error_Some. congruence. Qed.
 Definition cmd_target (c : wcmd) : option nat :=
   match c with CRes i _ => Some i | CWorker i _ => Some i | CPool i _ => Some i | _ => None end.
-Definition cmd_is_step (c : wcmd) : bool :=
-  match c with CWorker _ o => is_step_w o | CPool _ o => is_step_p o | _ => false end.
-Theorem world_independence : forall W c j a, cmd_is_step c = false -> cmd_target c <> Some j ->
+Theorem world_independence : forall W c j a, cmd_target c <> Some j ->
   nth_error (wo_objs W) j = Some a -> nth_error (wo_objs (fst (world_step W c))) j = Some a.
 Proof.
-  intros W c j a Hs Ht Hj. destruct c as [i o|i o|i o|i|i]; cbn [world_step cmd_target cmd_is_step] in *.
+  intros W c j a Ht Hj. destruct c as [i o|i o|i o|i|i]; cbn [world_step cmd_target] in *.
   - destruct (nth_error (wo_objs W) i) as [[R|w|P|e]|]; try exact Hj.
     destruct (r_step R o). cbn [fst wo_objs]. rewrite nth_error_set_nth_other; [exact Hj|congruence].
   - destruct (nth_error (wo_objs W) i) as [[R|w|P|e]|]; try exact Hj.
-    destruct (w_opstep w o). rewrite Hs. cbn [fst wo_objs]. rewrite nth_error_set_nth_other; [exact Hj|congruence].
+    destruct (w_opstep w o). cbn [fst wo_objs]. rewrite nth_error_set_nth_other; [exact Hj|congruence].
   - destruct (nth_error (wo_objs W) i) as [[R|w|P|e]|]; try exact Hj.
-    destruct (p_opstep P o). rewrite Hs. cbn [fst wo_objs]. rewrite nth_error_set_nth_other; [exact Hj|congruence].
+    destruct (p_opstep P o). cbn [fst wo_objs]. rewrite nth_error_set_nth_other; [exact Hj|congruence].
   - destruct (nth_error (wo_objs W) i) as [[R|w|P|e]|]; try exact Hj.
     + destruct (r_copy R); cbn [fst wo_objs]; apply nth_error_app_old; exact Hj.
     + destruct (w_copy w); cbn [fst wo_objs]; apply nth_error_app_old; exact Hj.
@@ -81,132 +119,3 @@ Proof.
     + destruct (rebase_workers _ _). cbn [fst wo_objs]. apply nth_error_app_old. exact Hj.
 Qed.
 
-(* ---------------------------------------------------------------------------------------------- *)
-(* A copy has the getters of its original when no two cells of the vector match each other. *)
-Definition wf_keys (ks : list rkey) : Prop :=
-  forall k k', In k ks -> In k' ks -> res_match k' k = true -> k' = k.
-Lemma wf_vecb_keys : forall v, wf_vecb v = true -> NoDup (map fst v) /\ wf_keys (map fst v).
-Proof.
-  induction v as [|[k q] v IH]; cbn [wf_vecb map fst]; intro H.
-  - split; [constructor|intros k k' []].
-  - apply andb_true_iff in H. destruct H as [H1 H2]. destruct (IH H2) as [N W]. rewrite forallb_forall in H1.
-    assert (Hn : forall k', In k' (map fst v) -> res_match k k' = false).
-    { intros k' Hin. apply in_map_iff in Hin. destruct Hin as ([k0 q0] & E & Hin). cbn [fst] in E. subst k0.
-      specialize (H1 _ Hin). cbn [fst] in H1. apply negb_true_iff in H1. exact H1. }
-    split.
-    + constructor; [|exact N]. intro Hin. specialize (Hn k Hin). rewrite res_match_refl in Hn. discriminate.
-    + intros a b [Ha|Ha] [Hb|Hb] Hm; subst; auto.
-      * specialize (Hn b Hb). rewrite res_match_sym in Hm. congruence.
-      * specialize (Hn a Ha). congruence.
-Qed.
-
-(* on such a vector a request for the exact key of a cell is served from that cell only *)
-Lemma alloc_loop_cell : forall k v q v' recs, wf_keys (map fst v) -> NoDup (map fst v) -> In k (map fst v) ->
-  0 <= q <= sumP (rkey_eqb k) v -> alloc_loop k q v = (v', recs) ->
-  forall P, sumP P recs = if P k then q else 0.
-Proof.
-  intros k. induction v as [|[k0 x] v IH]; intros q v' recs W N Hin Hq H P; [destruct Hin|].
-  cbn [map fst] in *. inversion N as [|a b N1 N2]; subst. cbn [alloc_loop] in H. cbn [sumP] in Hq.
-  destruct (rkey_eqb k k0) eqn:E.
-  - apply rkey_eqb_eq in E. subst k0. rewrite res_match_refl in H. rewrite (sumP_eqb_notin k v N1) in Hq.
-    destruct (q <=? x) eqn:E1; [|lia]. inversion H; subst. cbn [sumP]. destruct (P k); lia.
-  - destruct Hin as [Hin|Hin]; [subst; rewrite rkey_eqb_refl in E; discriminate|].
-    assert (Hm : res_match k0 k = false).
-    { destruct (res_match k0 k) eqn:Em; [|reflexivity]. exfalso.
-      assert (k0 = k) by (apply W; [right; exact Hin|left; reflexivity|exact Em]). subst. rewrite rkey_eqb_refl in E. discriminate. }
-    rewrite Hm in H. destruct (q =? 0) eqn:E0.
-    + inversion H; subst. cbn [sumP]. destruct (P k); lia.
-    + destruct (alloc_loop k q v) as [v'' rs] eqn:El. inversion H; subst.
-      apply (IH q v'' recs); [intros a b Ha Hb; apply W; right; assumption|exact N2|exact Hin|lia|exact El].
-Qed.
-Lemma available_cell : forall k v, wf_keys (map fst v) -> In k (map fst v) -> vec_quantity v k = sumP (rkey_eqb k) v.
-Proof.
-  intros k v W Hin. unfold vec_quantity.
-  assert (G : forall u, (forall k', In k' (map fst u) -> res_match k' k = true -> k' = k) ->
-              sumP (fun k' => res_match k' k) u = sumP (rkey_eqb k) u).
-  { induction u as [|[k0 x] u IHu]; intro Hu; cbn [sumP]; [reflexivity|].
-    rewrite IHu by (intros; apply Hu; [right|]; assumption). cbn [map fst] in Hu.
-    destruct (res_match k0 k) eqn:Em.
-    - rewrite (Hu k0 (or_introl eq_refl) Em), rkey_eqb_refl. reflexivity.
-    - destruct (rkey_eqb k k0) eqn:E; [|reflexivity]. apply rkey_eqb_eq in E. subst. rewrite res_match_refl in Em. discriminate. }
-  apply G. intros k' Hk' Hm. apply W; assumption.
-Qed.
-
-(* the state of a copy in progress: enough room in every cell for what remains to be re-applied *)
-Definition Room (I : res) (a : allocs) : Prop :=
-  forall k, In k (map fst (r_avail I)) -> allocs_sum (rkey_eqb k) a <= sumP (rkey_eqb k) (r_avail I).
-
-Lemma copy_rec_step : forall I k c q, Inv_ledger I -> wf_keys (map fst (r_avail I)) -> NoDup (map fst (r_avail I)) ->
-  In k (map fst (r_avail I)) -> 0 <= q <= sumP (rkey_eqb k) (r_avail I) ->
-  exists I', r_allocate I k c q = (I', Ok tt) /\ Inv_ledger I' /\ map fst (r_avail I') = map fst (r_avail I) /\
-             r_total I' = r_total I /\
-             forall P, sumP P (r_avail I') = sumP P (r_avail I) - (if P k then q else 0).
-Proof.
-  intros I k c q HI W N Hin Hq. unfold r_allocate. unfold r_available. rewrite (available_cell k _ W Hin).
-  destruct (sumP (rkey_eqb k) (r_avail I) <? q) eqn:E; [lia|].
-  destruct (alloc_loop k q (r_avail I)) as [v recs] eqn:El. eexists. split; [reflexivity|].
-  destruct (alloc_loop_spec _ _ _ _ _ El) as (C & K & _).
-  assert (HI' : Inv_ledger (mkRes v (r_total I) (al_append c recs (r_allocs I)))).
-  { apply (inv_allocate I k c q _ (Ok tt) HI). unfold r_allocate, r_available. rewrite (available_cell k _ W Hin), E, El. reflexivity. }
-  split; [exact HI'|]. cbn [r_avail r_total]. split; [exact K|]. split; [reflexivity|].
-  intro P. specialize (C P). rewrite (alloc_loop_cell k _ _ _ _ W N Hin Hq El P) in C. lia.
-Qed.
-
-Lemma copy_recs_ok : forall l I c, Inv_ledger I -> wf_keys (map fst (r_avail I)) -> NoDup (map fst (r_avail I)) ->
-  nonneg_vec l -> Forall (fun kq => In (fst kq) (map fst (r_avail I))) l ->
-  (forall k, In k (map fst (r_avail I)) -> sumP (rkey_eqb k) l <= sumP (rkey_eqb k) (r_avail I)) ->
-  exists I', copy_recs I c l = Ok I' /\ Inv_ledger I' /\ map fst (r_avail I') = map fst (r_avail I) /\
-             r_total I' = r_total I /\ forall P, sumP P (r_avail I') = sumP P (r_avail I) - sumP P l.
-Proof.
-  induction l as [|[k q] l IH]; intros I c HI W N Hn Hk Hr; cbn [copy_recs].
-  - exists I. split; [reflexivity|]. split; [exact HI|]. split; [reflexivity|]. split; [reflexivity|]. intro P. cbn [sumP]. lia.
-  - inversion Hn as [|a b Q1 Q2]; subst. inversion Hk as [|a b K1 K2]; subst. cbn [fst snd] in *.
-    assert (Hq : 0 <= q <= sumP (rkey_eqb k) (r_avail I)).
-    { split; [exact Q1|]. specialize (Hr k K1). cbn [sumP] in Hr. rewrite rkey_eqb_refl in Hr.
-      pose proof (sumP_nonneg (rkey_eqb k) l Q2). lia. }
-    destruct (copy_rec_step I k c q HI W N K1 Hq) as (I1 & E1 & HI1 & Ks & T1 & S1). rewrite E1.
-    destruct (IH I1 c HI1) as (I' & E' & HI' & Ks' & T' & S'); try (rewrite Ks; assumption); try assumption.
-    + intros k0 Hk0. rewrite Ks in Hk0. rewrite S1. specialize (Hr k0 Hk0). cbn [sumP] in Hr. lia.
-    + exists I'. split; [exact E'|]. split; [exact HI'|]. split; [congruence|]. split; [congruence|].
-      intro P. rewrite S', S1. cbn [sumP]. lia.
-Qed.
-
-Lemma copy_allocs_ok : forall a I, Inv_ledger I -> wf_keys (map fst (r_avail I)) -> NoDup (map fst (r_avail I)) ->
-  recs_nonneg a -> recs_in (r_avail I) a -> Room I a ->
-  exists I', copy_allocs I a = Ok I' /\ Inv_ledger I' /\ map fst (r_avail I') = map fst (r_avail I) /\
-             r_total I' = r_total I /\ forall P, sumP P (r_avail I') = sumP P (r_avail I) - allocs_sum P a.
-Proof.
-  induction a as [|[c l] a IH]; intros I HI W N Hn Hk Hr; cbn [copy_allocs].
-  - exists I. split; [reflexivity|]. split; [exact HI|]. split; [reflexivity|]. split; [reflexivity|]. intro P. cbn [allocs_sum]. lia.
-  - inversion Hn as [|x y Q1 Q2]; subst. inversion Hk as [|x y K1 K2]; subst. cbn [snd] in *.
-    assert (Hpos : forall k, 0 <= allocs_sum (rkey_eqb k) a).
-    { intro k. clear -Q2. induction a as [|[c0 l0] a IHa]; cbn [allocs_sum snd]; [lia|]. inversion Q2; subst. cbn [snd] in *.
-      pose proof (sumP_nonneg (rkey_eqb k) l0 H1). specialize (IHa H2). lia. }
-    destruct (copy_recs_ok l I c HI W N Q1 K1) as (I1 & E1 & HI1 & Ks & T1 & S1).
-    { intros k Hk0. specialize (Hr k Hk0). cbn [allocs_sum snd] in Hr. specialize (Hpos k). lia. }
-    rewrite E1.
-    destruct (IH I1 HI1) as (I' & E' & HI' & Ks' & T' & S'); try (rewrite Ks; assumption); try assumption.
-    + unfold recs_in in *. rewrite Ks. exact K2.
-    + intros k Hk0. rewrite Ks in Hk0. rewrite S1. specialize (Hr k Hk0). cbn [allocs_sum snd] in Hr. lia.
-    + exists I'. split; [exact E'|]. split; [exact HI'|]. split; [congruence|]. split; [congruence|].
-      intro P. rewrite S', S1. cbn [allocs_sum snd]. lia.
-Qed.
-
-Theorem copy_same_getters : forall R, Inv_ledger R -> Dict_ok R -> Nonneg R -> wf_vecb (r_total R) = true ->
-  exists R', r_copy R = Ok R' /\ r_avail R' = r_avail R /\ r_total R' = r_total R /\
-             (forall P, allocs_sum P (r_allocs R') = allocs_sum P (r_allocs R)) /\
-             forall r, r_available R' r = r_available R r /\ r_total_q R' r = r_total_q R r /\
-                       r_allocated_q R' r = r_allocated_q R r.
-Proof.
-  intros R HI HD HN Hwf. destruct (wf_vecb_keys _ Hwf) as [N W].
-  destruct HI as [C K Rin]. destruct HN as [NA NR].
-  destruct (copy_allocs_ok (r_allocs R) (r_new (r_total R)) (inv_new _)) as (R' & E & HI' & Ks & T & S); cbn [r_new r_avail]; auto.
-  - unfold recs_in in *. rewrite <- K. exact Rin.
-  - intros k Hk. specialize (C (rkey_eqb k)). pose proof (sumP_nonneg (rkey_eqb k) _ NA). cbn [r_new r_avail]. lia.
-  - cbn [r_new r_avail r_total] in *. exists R'. split; [exact E|].
-    assert (EA : r_avail R' = r_avail R).
-    { apply vec_ext; [congruence|rewrite Ks; exact N|]. intro k. rewrite S. specialize (C (rkey_eqb k)). lia. }
-    split; [exact EA|]. split; [exact T|]. split.
-    + intro P. destruct HI' as [C' _ _]. specialize (C' P). specialize (C P). rewrite EA, T in C'. lia.
-    + intro r. unfold r_allocated_q, r_available, r_total_q. rewrite EA, T. auto.
-Qed.
